@@ -412,6 +412,7 @@ def run(ctx, res):
     res.extra['derived_impls'] = nimpl
     check_cli(ctx, res, lib)
     check_merge(ctx, res, lib)
+    check_editor_completion_content(ctx, res)
     res.exhaustive = True
 
 
@@ -529,5 +530,119 @@ def check_merge(ctx, res, lib):
                             msg="%s can record a completion longer than its buffer" % f.npath))
         if n < 8:
             raise KeyError("merge_autocompletion: only %d abstract exits" % n)
+    finally:
+        absint.WIDEN_AT = old
+
+
+def check_editor_completion_content(ctx, res):
+    """A6: the effect of `Editor::autocompletion` on the line, for every content, buffer size, cursor and completer
+    behaviour (segment algebra of rules/content.py; the user's completer may write anywhere into the completion buffer it
+    is given and leave any `autocompleted` length within it).  With i = the cursor's byte offset
+    (`char_byte_index(text(), cursor)`), r = the number of blanks the code's own backward search finds at the end of
+    `text[i..]` (0 when the cursor is at the end of the text) and R = valid - r:
+      * the completer is given exactly `text[..R]` as request and `buffer[R..]` to write into - typed characters before
+        R are never altered on any path;
+      * an exit without a completion leaves cursor and valid as they were and has re-filled `[R, valid)` with blanks
+        (the line is unchanged although the completer may have scribbled there);
+      * an exit with a completion of m bytes leaves valid' = R + m, or R + m + 1 with a blank stored at R + m."""
+    from .. import absint, fm
+    from . import C03, content, session
+    from .content import ZERO, Undecided
+    from .common import lib_crate
+    lib = lib_crate(ctx.crates('default'))
+    meths = {x.name: x for x in session.methods_of(lib, 'editor::Editor')}
+    if 'autocompletion' not in meths:
+        return
+    old = absint.WIDEN_AT
+    absint.WIDEN_AT = 16
+    try:
+        rule = content.ContentE3(lib)
+        rule.track_none = True
+        inv, keymap = C03.inventory(lib)
+        rule.keymap = keymap
+        f = meths['autocompletion']
+        valid0, cursor0, cap = fm.lin_atom('valid0'), fm.lin_atom('cursor0'), fm.lin_atom('cap(B)')
+        one = fm.lin_const(1)
+        n = ncompl = 0
+        for label, selfv, facts in C03.editor_entries(Interp([lib], rule)):
+            I = Interp([lib], rule, max_worlds=60000)
+            rule.ctx = 'Editor::autocompletion'
+            args, _ = C03.sym_args(rule, f, ('ref', (-1, 0, ())))
+            exits = I.run(f, args, facts, {(-1, 0): selfv})
+            ci_, vi_ = I.field_index('editor::Editor', 'cursor'), I.field_index('editor::Editor', 'valid')
+            for w0, rv in exits:
+                n += 1
+                ed = w0.store[(-1, 0)]
+                cur, val = C03.L(ed[3][ci_]), C03.L(ed[3][vi_])
+                cbis = sorted(content.markers(w0, 'cbi'), key=lambda m: m[0])
+                poss = content.markers(w0, 'pos')
+                nones = content.markers(w0, 'posnone')
+                fx = [e for e in content.effects_of(w0) if e[1] == 'B']
+
+                def ob(clause, good, msg):
+                    res.oblige("A6|%s|%s|%d" % (clause, msg[:50], n), good, sample="completion content: " + clause,
+                               violation=None if good else dict(rule='C11.line-content', key="C11|line-content|%s" % clause,
+                                                                msg="editor::Editor::autocompletion: " + msg))
+
+                def body(w, cur=cur, val=val, cbis=cbis, poss=poss, nones=nones, fx=fx, ob=ob):
+                    def le(a, b):
+                        return a is not None and b is not None and rule.prove(w, fm.le(a, b))
+
+                    def eq(a, b):
+                        return a is not None and b is not None and (a == b or (le(a, b) and le(b, a)))
+                    first = cbis[0] if cbis else None
+                    anchored = first is not None and first[2] == 'B' and first[3] == ZERO and eq(first[4], valid0) and eq(first[5], cursor0)
+                    ob('cursor-offset', anchored and len(cbis) == 1, "the cursor's position in the text is not taken from char_byte_index(text(), cursor)")
+                    if not anchored:
+                        return
+                    if first[1] is None:
+                        R = valid0
+                    else:
+                        i = fm.lin_atom(first[1])
+                        cand = [fm.add(valid0, fm.lin_atom(at), -1) for (at, b_, off, sl, byte, rev) in poss
+                                if b_ == 'B' and byte == ('ne', 0x20) and rev and eq(off, i) and eq(sl, fm.add(valid0, i, -1))]
+                        cand += [i for (b_, off, sl, byte, rev) in nones
+                                 if b_ == 'B' and byte == ('ne', 0x20) and rev and eq(off, i) and eq(sl, fm.add(valid0, i, -1))]
+                        ob('blank-search', len(cand) == 1, "the blanks to set aside are not found by one backward search for the last non-blank over text[i..]")
+                        if len(cand) != 1:
+                            return
+                        R = cand[0]
+                    unk = [e for e in fx if e[0] == 'unkrange']
+                    ob('completer-gets-tail', all(eq(e[2], R) for e in unk) and len(unk) <= 1,
+                       "the completer is handed a buffer that does not start right after the request text[..R]")
+                    c = content.replay(rule, w, 'B', cap)
+                    head = c.normalised(c.prefix(R))
+                    same, why = c.same(head, [(ZERO, R, ('old', ZERO))])
+                    ob('typed-text-kept', same, "characters before the request's end are altered: " + why)
+                    unchanged = eq(cur, cursor0) and eq(val, valid0)
+                    if unchanged:
+                        if unk:
+                            tail = c.normalised(c.read(R, valid0))
+                            good = all(s_[2] == ('byte', 0x20) for s_ in tail)
+                            ob('blanks-restored', good, "an exit without completion leaves bytes the completer may have overwritten in the "
+                               "visible line: [R, valid) = " + content.fmt_segs(tail))
+                        else:
+                            tail = c.normalised(c.read(R, valid0))
+                            good = all(s_[2] == ('byte', 0x20) or (s_[2][0] == 'old' and eq(s_[2][1], ZERO)) for s_ in tail)
+                            ob('line-unchanged', good, "an exit without completion changes the line: " + content.fmt_segs(tail))
+                        return
+                    # completion
+                    m = None
+                    for a_, k_ in (val[0] if val is not None else ()):
+                        if a_.startswith('merged@') and k_ == 1:
+                            m = fm.lin_atom(a_)
+                    ob('valid-after-completion', m is not None and (eq(val, fm.add(R, m)) or eq(val, fm.add(fm.add(R, m), one))),
+                       "after a completion valid is neither R + m nor R + m + 1 (R = request length, m = completed bytes)")
+                    if m is not None and eq(val, fm.add(fm.add(R, m), one)):
+                        sp = c.normalised(c.read(fm.add(R, m), val))
+                        ob('blank-appended', len(sp) == 1 and sp[0][2] == ('byte', 0x20), "the extra byte after a unique completion is not a blank")
+                try:
+                    content.cases(rule, w0, body)
+                    if not (rule.prove(w0, fm.le(cur, cursor0)) and rule.prove(w0, fm.le(cursor0, cur))) if cur is not None else True:
+                        ncompl += 1
+                except Undecided as e:
+                    ob('undecided', False, "the buffer content at an exit cannot be decided: %s" % e)
+        if n < 8 or ncompl < 3:
+            raise KeyError("Editor::autocompletion: only %d exits (%d completing) analysed" % (n, ncompl))
     finally:
         absint.WIDEN_AT = old
